@@ -79,6 +79,10 @@ mut("count-crawled-wrong", T, "                if crawled:\n                    
 mut("revert-F4", T, "                if not node.has_outlinks():\n                    last_path = path\n                    last_path_i = i\n                    continue",
     "                if not node.has_outlinks():\n                    last_path = path\n                    continue", ["C10"])
 mut("pagelinks-count-pages-not-linkbearing", T, "                if newlinks:\n                    n += 1\n\n                    if source_page_count", "                if True:\n                    n += 1\n\n                    if source_page_count", ["C10"])
+mut("batch-no-source-refresh-before-outlinks", T, "            source_node.refresh()\n            store.add_outlinks(source_node, target_blocks)", "            store.add_outlinks(source_node, target_blocks)", ["C16", "C01", "C03"])
+mut("batch-no-refresh-before-crawled-flag", T, "                if not source_node.is_crawled():\n                    source_node.refresh()\n                    source_node.flag_as_crawled()", "                if not source_node.is_crawled():\n                    source_node.flag_as_crawled()", ["C16", "C01"])
+mut("rule-iter-stale-dfs", T, "                if node2.is_page():\n                    _, add_report = self.__add_page(lru)\n                    report += add_report",
+    "                if node2.is_page():\n                    _, add_report = self.__add_page(lru)\n                    report += add_report\n                    node2.write()", ["C16", "C06"])
 
 def main():
     args = [a for a in sys.argv[1:] if not a.startswith("--")]
